@@ -215,6 +215,9 @@ fn gen_pool(src: &mut Src) -> (Vec<Value>, Vec<String>, Vec<Vec<bool>>) {
     queries.push("$.*[?!$.b]".to_string());
     queries.push("$..[?$.s[?@ == $.p] || @ == 1]".to_string());
     queries.push("$..[?@.b > 3].b".to_string());
+    queries.push("$..[?@.b > 3.5].b".to_string());
+    queries.push("$..[?@.b <= 10.0 && @.b != 4.0]".to_string());
+    queries.push("$..[?@ == 1.0]".to_string());
     // queries the AST builder rejects after the grammar accepted them
     queries.push("$[?@.a == 9007199254740993]".to_string());
     queries.push("$[?length(@.*) > 1]".to_string());
@@ -247,6 +250,10 @@ fn gen_pool(src: &mut Src) -> (Vec<Value>, Vec<String>, Vec<Vec<bool>>) {
 
 /// the reference for "no history": the pair evaluated as the first action of a fresh process
 fn fresh_process_result(doc: &Value, q: &str) -> Result<Value, String> {
+    fresh_process(json!({"query": q, "doc": doc}))
+}
+
+fn fresh_process(msg: Value) -> Result<Value, String> {
     let exe = std::env::current_exe().map_err(|e| e.to_string())?;
     let mut child = std::process::Command::new(exe)
         .arg("once")
@@ -257,7 +264,7 @@ fn fresh_process_result(doc: &Value, q: &str) -> Result<Value, String> {
         .map_err(|e| e.to_string())?;
     {
         let stdin = child.stdin.as_mut().ok_or("no stdin")?;
-        let msg = json!({"query": q, "doc": doc}).to_string();
+        let msg = msg.to_string();
         stdin.write_all(msg.as_bytes()).map_err(|e| e.to_string())?;
     }
     let out = child.wait_with_output().map_err(|e| e.to_string())?;
@@ -271,8 +278,27 @@ pub fn once_main() -> i32 {
     let _ = std::io::Read::read_to_string(&mut std::io::stdin(), &mut s);
     let v: Value = crate::json::parse_json_unbounded(&s).unwrap_or(Value::Null);
     let q = v["query"].as_str().unwrap_or("");
-    println!("{}", result_of(&v["doc"], q));
+    if v["view"].as_str() == Some("V1") {
+        println!("{}", paths_on_v1(&v["doc"], q));
+    } else {
+        println!("{}", result_of(&v["doc"], q));
+    }
     0
+}
+
+/// the same document held by another `Queryable` type (separate integer and float variants, members in
+/// insertion order): the paths the query selects there, or the class of the refusal
+pub fn paths_on_v1(doc: &Value, q: &str) -> Value {
+    let view = crate::vq::V1::from_j(&J::from_value(doc));
+    match guarded(|| view.query_only_path(q)) {
+        Ok(Ok(r)) => json!(r),
+        Ok(Err(_)) => json!("Err"),
+        Err(p) => json!(format!("panic: {}", p)),
+    }
+}
+
+fn fresh_process_paths_on_v1(doc: &Value, q: &str) -> Result<Value, String> {
+    fresh_process(json!({"query": q, "doc": doc, "view": "V1"}))
 }
 
 /// runs `f` from a frame that lies at least `bytes` deeper on the current thread's stack (the checks run on
@@ -381,6 +407,23 @@ fn random_history(src: &mut Src, obs: &mut Obs) -> Res {
             at_stack_depth(frame_depth, &mut body);
         } else {
             body();
+        }
+        // the same pair on another `Queryable` type, after everything this process has evaluated on
+        // `serde_json::Value` (and on that type): it must answer as it does as the first action of a fresh process
+        if src.chance(1, 8) {
+            obs.eval(2);
+            let here = paths_on_v1(doc, &queries[*q]);
+            match fresh_process_paths_on_v1(doc, &queries[*q]) {
+                Ok(fresh) => {
+                    if here != fresh {
+                        return Err(Failure::new(
+                            "the result of an evaluation over a second Queryable type depends on the history of earlier evaluations (it differs from the same pair evaluated first in a fresh process)",
+                            json!({"step": step, "query": queries[*q], "doc": doc, "paths_here": here, "paths_in_a_fresh_process": fresh, "type": "V1: integer and float variants apart, members in insertion order"}),
+                        ));
+                    }
+                }
+                Err(e) => return Err(Failure::new(format!("harness inconsistency: fresh worker process failed: {}", e), json!({}))),
+            }
         }
         let ok_query = match &exp_vals {
             Some(v) => via_query == json!(v),
